@@ -205,7 +205,46 @@ def settings_numbers_not_narrowed(ctx):
     ctx.ok("settings-number-not-narrowed:scan", "E-TYPE narrowing", "-", "%d optional-integer constructions, %d narrowing sites examined" % (n_opt, n_cast))
 
 
+def failed_part_refuses_the_whole(ctx, tag):
+    """'Rejected cleanly or honoured exactly': in the compile functions (Config2::compile, compileDropIn and the compile* helpers of the
+    config layer they reach) a part that failed to compile - a ruleset, detector group, plugin, prekill hook - makes the function fail:
+    from the 'result is null' edge nothing but a failure return (nullptr / nullopt) is reachable, and no further iteration.  Skipping
+    the failed part ("ignore and continue") yields an engine that silently lacks a hook, action or detector the configuration names."""
+    P, cg = ctx.prog, ctx.cg
+    roots = [f.usr for q in ("Oomd::Config2::compile", "Oomd::Config2::compileDropIn") for f in P.fn(q)]
+    scope_ = [P.fns[u] for u in cg.reach(roots) if P.fns[u].file.startswith("oomd/config/") and P.fns[u].kind != "lambda"]
+    n_parts = 0
+    for f in sorted(scope_, key=lambda x: (x.file, x.line)):
+        parts = locals_receiving(f, r"(?<![\w:])(Oomd::Config2::)?compile\w*\(")
+        if not parts:
+            continue
+        ctx.use(f)
+        n_parts += len(parts)
+        tok = lambda k, p, parts=parts: ["part-failed"] if (isinstance(k, str) and ((k in parts and p is False) or
+                                                                                     (re.fullmatch(r"\((%s) == nullptr\)|\(nullptr == (%s)\)" % (("|".join(map(re.escape, parts)),) * 2), k) and p is True))) else None
+        fl = Flow(P, f, cg=cg, edge_tokens=tok)
+        bad = []
+        for kind, node, b, st_parts in fl.exits():
+            if kind not in ("return", "fallthrough"):
+                continue
+            if any("part-failed" in st.may for st in st_parts.values()):
+                t = ret_text(f, node) if node is not None and kind == "return" else "end of function"
+                if not re.fullmatch(r"nullptr|std::nullopt|\{\}|std::unique_ptr\(nullptr\)|std::optional\(std::nullopt\)", t) and "nullopt" not in t and "nullptr" not in t:
+                    bad.append("returns %s at %s" % (t[:40], f.loc(node) if node is not None else f.loc()))
+        for l in loops(f):
+            for b in back_sources(l):
+                if any("part-failed" in st.may for st in (fl.OUT.get(b) or {}).values()):
+                    bad.append("goes on to the next iteration of the loop at %s" % (f.loc(l["stmt"]) if l["stmt"] is not None else f.loc()))
+        ctx.check(not bad, "%s:failed-part-refuses-the-whole:%s" % (tag, short(f)), "passed_edge + return_table", f.loc(),
+                  "a part that failed to compile fails %s" % f.pq,
+                  "%s goes on after a part failed to compile (%s): the configuration is accepted although a ruleset / plugin / prekill hook it names is missing "
+                  "from the engine - the remaining hooks move up in priority, the remaining actions run without the one that was dropped" % (f.pq, "; ".join(sorted(set(bad))[:3])))
+    ctx.counters[tag + "_compiled_parts"] = n_parts
+    ctx.floor(tag + "_compiled_parts", 6, "locals holding the result of a compile* call in the compile scope")
+
+
 def run(ctx):
+    failed_part_refuses_the_whole(ctx, "C12")
     from .C13 import compile_dropin_refuses_whole_unit
     compile_dropin_refuses_whole_unit(ctx)
     from .C13 import compile_keeps_nothing_between_calls
